@@ -232,7 +232,37 @@ impl TypeChecker {
         }
     }
 
+    /// The variable a place expression (`a.b[0].c`, `self.x`) is rooted in, if any.
+    fn place_root_name(expr: &Expr) -> Option<&str> {
+        match expr {
+            Expr::Ident(name) => Some(name.as_str()),
+            Expr::SelfExpr => Some("self"),
+            Expr::Field(base, _) | Expr::Index(base, _) => Self::place_root_name(&base.node),
+            Expr::Paren(inner) => Self::place_root_name(&inner.node),
+            _ => None,
+        }
+    }
+
+    /// Writing through `obj.field = ...` / `obj[i] = ...` mutates the binding `obj` is rooted in, which must be `mut`.
+    fn check_place_is_mutable(&mut self, object: &Spanned<Expr>, span: Span) {
+        let Some(root) = Self::place_root_name(&object.node) else {
+            return;
+        };
+        let is_immutable_var = self
+            .symbols
+            .lookup(root)
+            .and_then(|id| self.symbols.get(id))
+            .map(|sym| matches!(&sym.kind, SymbolKind::Variable(v) if !v.is_mutable))
+            .unwrap_or(false);
+        // NOTE: `self.field = ...` under a plain `self` receiver is not reported here yet:
+        // `tests/codegen_snapshots/traits.incn` mutates fields through `self` and is required to typecheck.
+        if is_immutable_var && root != "self" && !self.mutable_bindings.contains(root) {
+            self.errors.push(errors::mutation_without_mut(root, span));
+        }
+    }
+
     fn check_field_assignment(&mut self, field_assign: &FieldAssignmentStmt, span: Span) {
+        self.check_place_is_mutable(&field_assign.object, span);
         // Check the object expression
         let obj_ty = self.check_expr(&field_assign.object);
         // Check the value expression
@@ -304,6 +334,7 @@ impl TypeChecker {
     }
 
     fn check_index_assignment(&mut self, index_assign: &IndexAssignmentStmt, span: Span) {
+        self.check_place_is_mutable(&index_assign.object, span);
         // Check the object expression (should be a collection)
         let obj_ty = self.check_expr(&index_assign.object);
         // Check the index expression
@@ -533,6 +564,9 @@ impl TypeChecker {
             span: for_stmt.iter.span,
             scope: 0,
         });
+        // There is no `for mut x in xs` spelling: elements reached through the loop variable stay assignable
+        // (`for body in bodies: body.x += dt`), the binding itself stays non-reassignable.
+        self.mutable_bindings.insert(for_stmt.var.clone());
 
         for stmt in &for_stmt.body {
             self.check_statement(stmt);
